@@ -49,6 +49,23 @@ def canon_groups(labels):
 def handler(case):
     ps = net.build(case["spec"])
     ps.create_sections()
+    if case.get("extend"):
+        # the network is extended after it has been prepared once (more laterals, with or without switches) and prepared again:
+        # the second preparation has to section the network as it is now
+        from relsad.network.components import Bus, Line, Disconnector
+        first = ps.get_comp("F0L0")
+        dn = first.parent_network
+        for k, e in enumerate(case["extend"]):
+            at = ps.get_comp(f"F0B{e['at']}") if isinstance(e["at"], int) else ps.get_comp(e["at"])
+            nb = Bus(f"F0X{k}", n_customers=1, s_ref=first.s_ref)
+            nl = Line(f"F0XL{k}", at, nb, r=first.r, x=first.x, capacity=100, s_ref=first.s_ref)
+            nl.repair_time_dist = first.repair_time_dist
+            if e["sw"] in (1, 3):
+                Disconnector(f"F0XL{k}a", nl, at)
+            if e["sw"] in (2, 3):
+                Disconnector(f"F0XL{k}b", nl, nb)
+            dn.add_buses([nb]); dn.add_lines([nl])
+        ps.create_sections()
     ops, impl, viols, sig = [], [], [], set()
     for n in ps.child_network_list:
         if not hasattr(n, "connected_line") or n.connected_line is None:
@@ -187,6 +204,13 @@ def gen(rng, n, exhaustive_upto):
             if rng.random() < 0.8:
                 spec["ctrl"]["ict"] = c06.fallible_ict(rng, spec)
         cases.append({"spec": spec})
+        if len(cases) % 4 == 0 and spec["ctrl"]["type"] == "manual":
+            # prepared, extended by 1-3 laterals (hung on the old network or on each other), prepared again
+            nb0 = len(spec["feeders"][0]["parent"])
+            ext = []
+            for k in range(rng.choice([1, 2, 3])):
+                ext.append({"at": rng.choice(list(range(nb0)) + [f"F0X{q}" for q in range(k)]), "sw": rng.choice([0, 1, 2, 3, 1])})
+            cases[-1]["extend"] = ext
     return cases
 
 
@@ -195,6 +219,7 @@ def run(res):
     n, ex = (150, 3) if res.tier == "quick" else (3000, 5)
     res.rule = (f"exhaustive: all rooted trees with <= {ex} lines x all placements of 0/1(up)/1(down)/2 disconnectors per line; "
                 "random: 1-2 feeders up to 25 lines with laterals, backup ties, microgrids of 1-4 lines nested at a random bus, 35% under ICT-based control (sections put back through Section.connect; missing devices, devices without ICT node); "
+                "every fourth manually controlled network is prepared, extended by 1-3 laterals through the public API and prepared again (checked as it is then); "
                 "non-trivial = distinct (lines, sections, max switches on a line) per network")
     res.exhaustive = True
     run_cases(res, gen(rng, n, ex), handler, compare)
